@@ -4,3 +4,4 @@ import GscribModel.Props.C17
 import GscribModel.Props.C02
 import GscribModel.Props.C05
 import GscribModel.Props.C06
+import GscribModel.Props.C03
